@@ -1,6 +1,7 @@
 package simcheck
 
 import (
+	"sync/atomic"
 	"runtime"
 	"encoding/binary"
 	"encoding/json"
@@ -118,6 +119,14 @@ type workerOut struct {
 	Level       string            `json:"level"`
 }
 
+type wallCase struct {
+	index int
+	seed  uint64
+	meta  caseMeta
+	input []byte
+	start time.Time
+}
+
 func genInput(p *Prop, i int, r *Rand, tier string) interface{} {
 	if p.GenIndexed != nil {
 		return p.GenIndexed(i, r, tier)
@@ -214,6 +223,37 @@ func workerRun(t *testing.T) {
 	// goroutines a run leaves blocked in real channel operations (with everything they
 	// reference) cannot be released; the process is recycled before that adds up
 	recycleMB := uint64(envInt("SIM_RECYCLE_MB", 1500))
+	// per-case wall-clock watchdog: a case normally takes milliseconds to seconds. One that
+	// has not come back after SIM_CASE_WALL_S seconds sits in a loop that never reaches a
+	// scheduling point (the step budget cannot see it). The goroutine cannot be stopped, so
+	// the watchdog records the case as a failure, writes the worker's result and ends the
+	// process; the driver continues with a fresh process at the next index.
+	caseWall := time.Duration(envInt("SIM_CASE_WALL_S", 180)) * time.Second
+	var cur atomic.Pointer[wallCase]
+	go func() {
+		for {
+			time.Sleep(time.Second)
+			c := cur.Load()
+			if c == nil || time.Since(c.start) < caseWall {
+				continue
+			}
+			f := &Failure{Clause: id + "/no-termination", Key: "wall-clock", Msg: fmt.Sprintf("the case did not come back within %v of wall-clock time (no scheduling point reached: the step budget cannot end it)", caseWall)}
+			rp := Replay{Property: id, VerifSeed: vseed, Index: c.index, Seed: c.seed, Tier: tier, Meta: c.meta, Input: c.input, Clause: f.Clause, Key: f.Key, Msg: f.Msg, Hash: strHash(f.Clause), WallClock: true}
+			path := ""
+			if replayDir != "" {
+				_ = os.MkdirAll(replayDir, 0o755)
+				path = filepath.Join(replayDir, fmt.Sprintf("%s-%d-%d.json", id, vseed, c.index))
+				b, _ := json.MarshalIndent(rp, "", " ")
+				_ = os.WriteFile(path, b, 0o644)
+			}
+			out.Runs++
+			out.FailTotal++
+			out.Failures = append(out.Failures, failureOut{Replay: path, Clause: f.Clause, Key: f.Key, Msg: f.Msg, Index: c.index, Hash: rp.Hash, Count: 1})
+			out.Recycle, out.NextIndex = true, c.index+stride
+			finish()
+			os.Exit(0)
+		}
+	}()
 	i := from
 	for n := 0; i < to; i, n = i+stride, n+1 {
 		if time.Since(start) > budget {
@@ -233,7 +273,9 @@ func workerRun(t *testing.T) {
 		in := genInput(p, i, gr, tier)
 		ch := &chooser{mode: modeGen, rng: NewRand(mix(seed, 0x5eed)), switchDen: meta.SwitchDen, pctDen: meta.PCTDen}
 		inJSON := mustJSON(in)
+		cur.Store(&wallCase{index: i, seed: seed, meta: meta, input: inJSON, start: time.Now()})
 		cr := execCase(t, p, in, meta, ch, tier, false)
+		cur.Store(nil)
 		out.Runs++
 		out.LastIndex = i
 		if cr.trouble != "" {
@@ -350,7 +392,22 @@ func workerReplay(t *testing.T) {
 	if os.Getenv("SIM_LOOSE") != "" {
 		ch.mode = modeLoose
 	}
-	cr := execCase(t, p, in, rp.Meta, ch, rp.Tier, os.Getenv("SIM_NOLOG") == "")
+	if rp.WallClock {
+		// no recorded choices: the case is run again from its seed, under the same watchdog
+		ch = &chooser{mode: modeGen, rng: NewRand(mix(rp.Seed, 0x5eed)), switchDen: rp.Meta.SwitchDen, pctDen: rp.Meta.PCTDen}
+		caseWall := time.Duration(envInt("SIM_CASE_WALL_S", 180)) * time.Second
+		go func() {
+			time.Sleep(caseWall)
+			out := replayOut{Property: rp.Property, Failed: true, Clause: rp.Clause, Key: rp.Key, Msg: rp.Msg, Hash: rp.Hash, Same: true}
+			if op := os.Getenv("SIM_OUT"); op != "" {
+				_ = os.WriteFile(op, mustJSON(out), 0o644)
+			} else {
+				fmt.Println(string(mustJSON(out)))
+			}
+			os.Exit(0)
+		}()
+	}
+	cr := execCase(t, p, in, rp.Meta, ch, rp.Tier, os.Getenv("SIM_NOLOG") == "" && !rp.WallClock)
 	out := replayOut{Property: rp.Property, Hash: cr.hash, Diverged: cr.diverged, Trouble: cr.trouble}
 	if cr.fail != nil {
 		out.Failed = true
